@@ -69,6 +69,9 @@ func Add(a, b Val, bounds func(*Sym) (lo, hi *big.Int, ok bool)) (Val, []Flag) {
 	hi := new(big.Int).Add(a.Hi, b.Hi)
 	r := Val{W: w, Signed: sg}
 	r.Sym = symBin("add", a.Sym, b.Sym, w)
+	if a.IsConst() && b.IsConst() && (hi.Cmp(maxOf(w, sg)) > 0 || lo.Cmp(minOf(w, sg)) < 0) {
+		return wrapConst(lo, w, sg), append(flags, Flag{"overflow", fmt.Sprintf("%d-bit addition of constants wraps", w)})
+	}
 	if hi.Cmp(maxOf(w, sg)) > 0 || lo.Cmp(minOf(w, sg)) < 0 {
 		flags = append(flags, Flag{"overflow", fmt.Sprintf("%d-bit addition may wrap: operands up to %#x and %#x", w, a.Hi, b.Hi)})
 		t := Top(w, sg)
@@ -91,6 +94,10 @@ func Sub(a, b Val) (Val, []Flag) {
 	r.Sym = symBin("sub", a.Sym, b.Sym, w)
 	lo := new(big.Int).Sub(a.Lo, b.Hi)
 	hi := new(big.Int).Sub(a.Hi, b.Lo)
+	if a.IsConst() && b.IsConst() && (lo.Cmp(minOf(w, sg)) < 0 || hi.Cmp(maxOf(w, sg)) > 0) {
+		c := wrapConst(lo, w, sg)
+		return c, []Flag{{"borrow", fmt.Sprintf("%d-bit subtraction of constants wraps", w)}}
+	}
 	if lo.Cmp(minOf(w, sg)) < 0 || hi.Cmp(maxOf(w, sg)) > 0 {
 		t := Top(w, sg)
 		t.Sym = r.Sym
@@ -108,6 +115,15 @@ func Sub(a, b Val) (Val, []Flag) {
 	return r.norm(), nil
 }
 
+// wrapConst reduces a constant into the type's range (two's complement wrap-around).
+func wrapConst(v *big.Int, w int, sg bool) Val {
+	u := new(big.Int).Mod(v, pow2(w))
+	if sg && u.Cmp(maxOf(w, true)) > 0 {
+		u.Sub(u, pow2(w))
+	}
+	return Const(u, w, sg)
+}
+
 // Mul is a * b.
 func Mul(a, b Val) (Val, []Flag) {
 	w, sg := a.W, a.Signed
@@ -122,6 +138,9 @@ func Mul(a, b Val) (Val, []Flag) {
 		if x.Cmp(hi) > 0 {
 			hi = x
 		}
+	}
+	if a.IsConst() && b.IsConst() && (hi.Cmp(maxOf(w, sg)) > 0 || lo.Cmp(minOf(w, sg)) < 0) {
+		return wrapConst(lo, w, sg), []Flag{{"overflow", fmt.Sprintf("%d-bit multiplication of constants wraps", w)}}
 	}
 	if hi.Cmp(maxOf(w, sg)) > 0 || lo.Cmp(minOf(w, sg)) < 0 {
 		t := Top(w, sg)
